@@ -731,7 +731,7 @@ func (g *planGen) prop(env genEnv, s string, li *int, depth int) *PProp {
 }
 
 // Plan generates a document plan and the triples it is meant to denote (order of RX.flatDoc).
-func genPlan(r *vh.Rng, feat map[string]int) (*PDoc, string, []string) {
+func genPlan(r *vh.Rng, feat map[string]int) (*PDoc, string, []string, bool) {
 	g := &planGen{r: r, used: map[[2]string]bool{}, feat: feat, budget: 3 + r.Intn(12)}
 	base := vh.Pick(r, basePool)
 	env := genEnv{base: base}
@@ -745,5 +745,5 @@ func genPlan(r *vh.Rng, feat map[string]int) (*PDoc, string, []string) {
 		n, _ := g.node(env, 0)
 		d.Nodes = append(d.Nodes, n)
 	}
-	return d, base, g.triples
+	return d, base, g.triples, g.breakWF
 }
